@@ -93,17 +93,29 @@ def r11_1(ctx):
 
 
 def _array_caches(repo):
+    """Derived caches that live on a collection: cached_property members of Array, and every
+    ``<obj>.__dict__["k"] = ...`` store anywhere in the package whose receiver is not the
+    ``self`` of some other class (collections are the only objects the package pokes this way)."""
     arr = _array_cls(repo)
+    array_like = {c.fq for c in repo.subclasses(arr)}
     caches = {}
     for name, f in arr.methods.items():
         if f.kind == "cached_property":
             caches[name] = f"cached_property {name}"
-    for f in arr.methods.values():
-        for n in full_walk(f.node):
-            if isinstance(n, ast.Subscript) and isinstance(n.ctx, ast.Store) and "__dict__" in idents_in(n.value):
-                k = const_value(n.slice)
-                if isinstance(k, str):
-                    caches.setdefault(k, f"__dict__[{k!r}] written in {f.qualname}")
+    for m in repo.units:
+        for f in m.functions.values():
+            g = f
+            while g is not None and g.cls is None:
+                g = g.parent
+            owner = g.cls if g else None
+            for n in body_walk(f.node):
+                if isinstance(n, ast.Subscript) and isinstance(n.ctx, ast.Store) and isinstance(n.value, ast.Attribute) and n.value.attr == "__dict__":
+                    recv = unparse(n.value.value)
+                    if recv == "self" and (owner is None or owner.fq not in array_like):
+                        continue
+                    k = const_value(n.slice)
+                    if isinstance(k, str):
+                        caches.setdefault(k, f"{recv}.__dict__[{k!r}] written in {f.construct}")
     return caches
 
 
@@ -339,12 +351,13 @@ def r11_4(ctx):
 
     rr = RuleResult("R11.4", "PURE", "the assignment kernel (slicing/_utils.py::setitem) copies its input block before writing into it", min_instances=1)
     f = ctx.repo.mod("dask_array.slicing._utils").func("setitem")
-    hits = kernel_write_findings(ctx, f)
+    _, hits = kernel_write_findings(ctx, f)
     rr.inst(site(f), writes_through_argument_alias=[h[1] for h in hits])
-    for node, reason in hits:
-        if "indices" in reason.split("parameter")[-1]:
-            continue  # normalisation of the per-task index list (C10 exemption)
-        ctx.finding(rr, site(f, node), reason, func=f, node=node)
+    for node, reason, toks in hits:
+        if toks == ["indices"]:
+            rr.exempt(site(f, node), "normalisation of the per-task index list (fresh per task execution); see C10 R10.1 exemption")
+            continue
+        ctx.finding(rr, site(f, node), reason + ": collections derived from x before the assignment share that block", func=f, node=node)
     return rr
 
 
@@ -355,10 +368,11 @@ def r11_6(ctx):
     rr.rule = "R11.6"
     for fd in rr.findings:
         fd.rule = "R11.6"
+        fd.prop = PROP
     return rr
 
 
-RULES = [r11_1, r11_2, r11_3, r11_5, r11_7]
+RULES = [r11_1, r11_2, r11_3, r11_4, r11_5, r11_6, r11_7]
 
 LEVEL_TEXT = (
     "Static decision of the mechanism that makes in-place operations local: single mutation point for the expression "
